@@ -259,7 +259,7 @@ def module_case(arg):
                     "coords": gm["coords"], "struct": s.name, "params": params, "data": data.hex(), "option": k, "text": gm["text"]})
             elif out["sample"] is None and len(text) > 30 and o["multiline"]:
                 out["sample"] = {"struct": s.name, "options": o, "bytes": data.hex(), "text": text[:500]}
-    out["viol"] = out["viol"][:40]
+    out["viol"] = common.cap_by_mech(out["viol"])
     return out
 
 
